@@ -1,4 +1,4 @@
-import Secp.Proofs.DriversFront
+import Secp.Proofs.FrontSchnorr
 import Secp.Proofs.DriversSchnorr
 import Secp.Proofs.Schnorr
 import Secp.Props.C03
@@ -118,6 +118,6 @@ theorem schnorrSignRFC6979_regenerated (B : Bytes → Bytes) (d : Nat) (h : Byte
 theorem schnorrVerifyBool_front (B : Bytes → Bytes) (sig : Nat × Nat) (h : Bytes) (Q : Nat × Nat) :
     Secp.Gen.Drivers.schnorrVerifyBool B sig h Q =
       (match Secp.Gen.Drivers.schnorrVerify B sig h Q with | .ok _ => true | _ => false) :=
-  Secp.Proofs.DriversFront.schnorrVerifyBool_front B sig h Q
+  Secp.Proofs.FrontSchnorr.schnorrVerifyBool_front B sig h Q
 
 end Secp.Props.C11
